@@ -189,6 +189,36 @@ func c17Tables(c *Ctx, p *Prog, m *Model) {
 			}
 		}
 		r.Check(ok, "R17.2", "ParseLevel", p.FuncPos(pl), "returns the parse table entry of the (normalised) argument", "ParseLevel does not return the parse-table entry of its argument")
+		// the name table has precedence: any other successful result is produced only after the table missed
+		var early []string
+		for _, b := range rets {
+			ret := b.Instrs[len(b.Instrs)-1].(*ssa.Return)
+			if len(ret.Results) != 2 || !isNilConst(ret.Results[1]) {
+				continue
+			}
+			if ex, isE := ret.Results[0].(*ssa.Extract); isE {
+				if lk, isL := ex.Tuple.(*ssa.Lookup); isL {
+					if gg, isG := globalLoad(lk.X); isG && gg == g {
+						continue
+					}
+				}
+			}
+			missed := false
+			for _, gd := range guardsOf(b) {
+				cond, neg := normCond(gd.If.Cond)
+				if ex, isE := cond.(*ssa.Extract); isE && ex.Index == 1 {
+					if lk, isL := ex.Tuple.(*ssa.Lookup); isL {
+						if gg, isG := globalLoad(lk.X); isG && gg == g && (gd.Succ == 0) == neg {
+							missed = true
+						}
+					}
+				}
+			}
+			if !missed {
+				early = append(early, p.Pos(instrPos(ret)))
+			}
+		}
+		r.Check(len(early) == 0, "R17.2", "ParseLevel:table-first", p.FuncPos(pl), "every other successful result is produced only after the name table missed", "ParseLevel can succeed without consulting the name table first (return at "+strings.Join(early, ", ")+"): a registered title of that form parses to another level, so the level does not answer to its title and its printed name does not parse back")
 	}
 	if ut := p.Method(p.Slog, "Level", "UnmarshalText"); ut != nil {
 		ok := false
@@ -465,6 +495,17 @@ func c17Register(c *Ctx, p *Prog, m *Model) {
 					if g, ok := globalLoad(x.X); ok && nm(g) == "stringToLevel" && x.CommaOk {
 						titleTest = true
 					}
+				case *ssa.Call:
+					// the library form of the membership test: slices.Contains / slices.Index(allLevels, levelValue)
+					if cal := calleeOf(x); cal != nil && len(x.Common().Args) == 2 {
+						if on := origin(cal).String(); on == "slices.Contains" || on == "slices.Index" {
+							if g, ok := globalLoad(x.Common().Args[0]); ok && nm(g) == "allLevels" {
+								if prm, ok := strip(x.Common().Args[1]).(*ssa.Parameter); ok && m.isLevel(prm.Type()) {
+									valTest = true
+								}
+							}
+						}
+					}
 				}
 			}
 		}
@@ -536,6 +577,9 @@ func c17Register(c *Ctx, p *Prog, m *Model) {
 			}
 			if strings.HasPrefix(d, "F:(phi + 1) <") || strings.HasPrefix(d, "F:phi <") || strings.HasPrefix(d, "F:lookup-ok global stringToLevel") || (strings.HasPrefix(d, "F:call ") && strings.HasSuffix(d, "!= nil")) {
 				continue // past a loop / past the refusal tests
+			}
+			if strings.HasPrefix(d, "F:call slices.Contains") && strings.Contains(d, "global allLevels") {
+				continue // past the value refusal test in its library form
 			}
 			gds = append(gds, d)
 		}
